@@ -5,10 +5,15 @@ socket module.
 Standalone (not part of `./check`):   python harness/hashcall_diff.py [n_histories] [seed]
 Environment: VERIF_REPO (default /repo) = the tree whose pymemcache is imported.
 
-A history is a list of single-key calls (the `_run_cmd` family) and `get_many` / `gets_many` calls; every call carries its
-time, per key the routing key (a preference order of the servers, given to a deterministic hasher) and a script (one
-per server for `get_many`): does `connect` fail, does `sendall` fail, and the `recv()` outcomes that arrive on the
-connection of the server contacted.  Per call the two
+A history is a list of single-key calls (the `_run_cmd` family), `get_many` / `gets_many`, `set_many` and `delete_many`
+calls; every call carries its time, per key the routing key (a preference order of the servers, given to a deterministic
+hasher) and a script (one per server for `get_many` / `set_many`, one per key for `delete_many`, which may contact the same
+server several times): does `connect` fail, does `sendall` fail, and the `recv()` outcomes that arrive on the
+connection of the server contacted.  The result of `set_many` — the list of failed keys — is compared *in order*: the
+order in which the real code builds it is deterministic (keys without a client in the order of `values`, then batch by
+batch in the order of first appearance of the server, inside a batch the order of the inner `Client.set_many`); the two
+`list(set(values.keys()) - set(succeeded))` of `_safely_run_set_many`, whose order would depend on `set` iteration,
+are unreachable (see `lean/Pymc/Model/HashCallMany.lean`).  Per call the two
 sides are compared on: result token, server routed to, identity of the inner client object invoked (numbered in order of
 creation), the bookkeeping state (`hasher.nodes`, `_failed_clients`, `_dead_clients`, `_last_dead_check_time`) and, for
 every client object registered in `self.clients`, its identity, whether it has a socket and how many bytes are left
@@ -50,6 +55,7 @@ class World:
         self.invoked = []           # client objects whose socket was used / connected during the call
         self.routed = None
         self.safely = []            # (server, [client objects invoked]) per _safely_run_func of the call in progress
+        self.per_key = None         # delete_many: the scripts of the `_run_cmd`s still to come, in order
 
     def script(self, server):
         if isinstance(self.scripts, dict) and "evs" not in self.scripts:
@@ -238,6 +244,48 @@ def gen_many(rng, n):
     return gets, keys, scripts
 
 
+def gen_set_many(rng, n):
+    """a set_many call: the dict of values (key objects carrying their routing keys), the arguments handed through, one
+    script per server (a number of reply lines that need not match the size of the batch)"""
+    values = {}
+    for _ in range(rng.randint(0, 5)):
+        k = b"bad key" if rng.random() < 0.05 else rng.choice([b"k", b"key2", b"z", b"y"])
+        v = "\u00e9" if rng.random() < 0.04 else rng.choice([b"v", b"v", b"val2", "txt", 12])
+        values[KeyObj(k, rng.sample(range(n), rng.randint(0, n)))] = v
+    expire = "soon" if rng.random() < 0.04 else 0
+    noreply = rng.choice([None, None, False, True])
+    flags = rng.choice([None, None, 5])
+    scripts = {}
+    for sv in range(n):
+        nlines = rng.choice([len(values), len(values), 1, 2, rng.randint(0, len(values) + 1)])
+        reply = b"".join(rng.choice([b"STORED\r\n", b"STORED\r\n", b"STORED\r\n", b"NOT_STORED\r\n", b"ERROR\r\n",
+                                     b"SERVER_ERROR out of memory\r\n", b"what\r\n"]) for _ in range(nlines))
+        if noreply is True and rng.random() < 0.8:
+            reply = b""
+        scripts[sv] = P.gen_script(rng, reply)
+    return values, expire, noreply, flags, scripts
+
+
+def gen_delete_many(rng, n):
+    """a delete_many call: key objects carrying their routing keys, one script per key"""
+    keys, scripts = [], []
+    for _ in range(rng.randint(0, 4)):
+        k = b"bad key" if rng.random() < 0.06 else rng.choice([b"k", b"key2", b"z"])
+        keys.append(KeyObj(k, rng.sample(range(n), rng.randint(0, n))))
+        scripts.append(P.gen_script(rng, rng.choice([b"DELETED\r\n", b"DELETED\r\n", b"NOT_FOUND\r\n", b"ERROR\r\n",
+                                                     b"SERVER_ERROR x\r\n", b"DELETED\r\nEXTRA\r\n"])))
+    noreply = rng.choice([None, False, False, True])
+    return keys, noreply, scripts
+
+
+def val_token(v):
+    if isinstance(v, bytes):
+        return "b:" + v.hex()
+    if isinstance(v, str):
+        return "t:" + ",".join(str(ord(ch)) for ch in v)
+    return "i:%d" % v
+
+
 def gen_history(rng):
     n = rng.choice([1, 2, 2, 3])
     ra = rng.choice([0, 1, 2])
@@ -256,6 +304,21 @@ def gen_history(rng):
                 if rng.random() < pdown:
                     scripts[sv]["cf"], scripts[sv]["sf"] = rng.choice([61, 61, 13]), rng.choice([32, 32, 54])
             history.append(("many", gets, keys, scripts, t))
+            continue
+        r = rng.random()
+        if r < 0.2:
+            values, expire, noreply, flags, scripts = gen_set_many(rng, n)
+            for sv in scripts:
+                if rng.random() < pdown:
+                    scripts[sv]["cf"], scripts[sv]["sf"] = rng.choice([61, 61, 13]), rng.choice([32, 32, 54])
+            history.append(("setmany", values, expire, noreply, flags, scripts, t))
+            continue
+        if r < 0.28:
+            keys, noreply, scripts = gen_delete_many(rng, n)
+            for sc in scripts:
+                if rng.random() < pdown:
+                    sc["cf"], sc["sf"] = rng.choice([61, 61, 13]), rng.choice([32, 32, 54])
+            history.append(("delmany", keys, noreply, scripts, t))
             continue
         thunk, tok, reply = gen_call(rng)
         sc = P.gen_script(rng, reply)
@@ -297,10 +360,15 @@ def run_python(params, history):
 
         def f(self, *a, **kw):
             w.invoked.append(self)
+            if self.sock is not None and self.sock.server not in w.fed:
+                # what arrives during the call arrives whether or not the call gets as far as sending (an inner call may
+                # fail its argument checks first): on an open socket it is in the pipe from the start of the inner call
+                self.sock.pipe.extend(w.script(self.sock.server)["evs"])
+                w.fed.add(self.sock.server)
             return orig(self, *a, **kw)
         return f
     for name in ("get", "gets", "gat", "gats", "set", "add", "replace", "append", "prepend", "cas", "delete", "incr", "decr", "touch",
-                 "get_many", "gets_many"):
+                 "get_many", "gets_many", "set_many"):
         setattr(CountingClient, name, wrap(name))
 
     class HC(H.HashClient):
@@ -314,6 +382,21 @@ def run_python(params, history):
                 return super()._safely_run_func(client, func, default_val, *a, **kw)
             finally:
                 entry[1] = w.invoked[0] if w.invoked else None
+
+        def _safely_run_set_many(self, client, values, *a, **kw):
+            del w.invoked[:]
+            entry = [client.server[1], None]
+            w.safely.append(entry)
+            try:
+                return super()._safely_run_set_many(client, values, *a, **kw)
+            finally:
+                entry[1] = w.invoked[0] if w.invoked else None
+
+        def _run_cmd(self, cmd, key, default_val, *a, **kw):
+            if w.per_key is not None:
+                # delete_many: every `_run_cmd` of the loop has its own script
+                w.scripts, w.fed = w.per_key.pop(0), set()
+            return super()._run_cmd(cmd, key, default_val, *a, **kw)
     saved = H.time
     H.time = FakeTime
     try:
@@ -324,7 +407,18 @@ def run_python(params, history):
         for item in history:
             del w.invoked[:]
             del w.safely[:]
-            if item[0] == "many":
+            w.per_key = None
+            if item[0] == "setmany":
+                _m, values, expire, noreply, flags, scripts, now = item
+                w.scripts, w.fed, w.now, w.prefs = scripts, set(), now, None
+                tok = P.res_token(lambda: hc.set_many(dict(values), expire, noreply, flags))
+            elif item[0] == "delmany":
+                _m, keys, noreply, scripts, now = item
+                w.scripts, w.fed, w.now, w.prefs = EMPTY, set(), now, None
+                w.per_key = list(scripts)
+                tok = P.res_token(lambda: hc.delete_many(list(keys), noreply=noreply))
+                w.per_key = None
+            elif item[0] == "many":
                 _m, gets, keys, scripts, now = item
                 w.scripts, w.fed, w.now = scripts, set(), now
                 prefs_of = {}
@@ -365,6 +459,20 @@ def driver_line(params, history):
             kstr = "|".join(f"{rks(prefs)}~b:{k.hex()}" for prefs, k in keys) if keys else "-"
             sct = " ".join(" ".join(f"s{sv}.{tk}" for tk in P.script_tokens(sc).split()) for sv, sc in sorted(scripts.items()))
             segs.append(f"op=hget_many gets={int(gets)} t={now} keys={kstr} {sct}".strip())
+            continue
+        ob = lambda x: "n" if x is None else str(int(x))  # noqa: E731
+        if item[0] == "setmany":
+            _m, values, expire, noreply, flags, scripts, now = item
+            istr = "|".join(f"{rks(k.prefs)}~b:{bytes(k).hex()}~{val_token(v)}" for k, v in values.items()) if values else "-"
+            sct = " ".join(" ".join(f"s{sv}.{tk}" for tk in P.script_tokens(sc).split()) for sv, sc in sorted(scripts.items()))
+            e = "x" if expire == "soon" else "i:%d" % expire
+            segs.append(f"op=hset_many t={now} items={istr} e={e} nr={ob(noreply)} fl={'n' if flags is None else flags} {sct}".strip())
+            continue
+        if item[0] == "delmany":
+            _m, keys, noreply, scripts, now = item
+            kstr = "|".join(f"{rks(k.prefs)}~b:{bytes(k).hex()}" for k in keys) if keys else "-"
+            sct = " ".join(" ".join(f"k{j}.{tk}" for tk in P.script_tokens(sc).split()) for j, sc in enumerate(scripts))
+            segs.append(f"op=hdelete_many t={now} nr={ob(noreply)} keys={kstr} {sct}".strip())
             continue
         (_th, tok, sc, now, prefs) = item
         rk = rks(prefs)
